@@ -220,12 +220,18 @@ META = {
 
 
 def plan(tier):
-    D = 2 if tier == "quick" else 3
-    out = [Scenario("episodes", scen, params={"D": D, "scripts": 1, "full_modes": 0 if tier == "quick" else 1},
-                    cover=["ending-" + e for e in ENDINGS] + ["occ-M204-merge", "occ-M73-first", "occ-M117-last",
-                                                            "occ-M204-exclude", "occ-M204-first", "occ-M204-last", "foreign-hook"],
-                    bounds={"D": D, "codes": ["M204", "M73", "M117"], "modes": MODES, "endings": ENDINGS})]
+    cov = ["ending-" + e for e in ENDINGS] + ["occ-M204-merge", "occ-M73-first", "occ-M117-last", "occ-M204-exclude",
+                                              "occ-M204-first", "occ-M204-last", "foreign-hook"]
+    out = [Scenario("episodes", scen, params={"D": 2, "scripts": 1, "full_modes": 0}, cover=cov,
+                    bounds={"D": 2, "codes": ["M204", "M73", "M117"], "mode assignments": 8, "endings": ENDINGS})]
     if tier == "thorough":
+        out.append(Scenario("episodes-d3", scen, params={"D": 3, "scripts": 1, "full_modes": 0}, cover=cov,
+                            bounds={"D": 3, "mode assignments": 8, "endings": ENDINGS}))
+        out.append(Scenario("episodes-all-modes", scen, params={"D": 2, "scripts": 1, "full_modes": 1}, cover=cov,
+                            bounds={"D": 2, "mode assignments": 48, "endings": ENDINGS}))
         out.append(Scenario("episodes-noscripts", scen, params={"D": 2, "scripts": 0},
                             cover=["ending-" + e for e in ENDINGS], bounds={"D": 2, "scripts": "none"}))
     return out
+
+
+SCENARIOS.update({"episodes-d3": scen, "episodes-all-modes": scen, "episodes-noscripts": scen})
